@@ -148,6 +148,8 @@ type FS struct {
 	hits     int
 	hitKinds map[string]int
 
+	DelayAfterFault time.Duration // see vfile.WriteAt
+	lastFault       time.Time
 	Perturb    func() // optional schedule perturbation before persister-side operations
 
 	Creates    int
@@ -306,6 +308,7 @@ func (fs *FS) pre(kind, name string, off int64, data []byte, flags int) (int, *F
 			if f != nil {
 				fs.hits++
 				fs.hitKinds[kind]++
+				fs.lastFault = time.Now()
 			}
 		}
 	}
@@ -384,6 +387,17 @@ func (v *vfile) ReadAt(p []byte, off int64) (int, error) {
 
 func (v *vfile) WriteAt(p []byte, off int64) (int, error) {
 	ti, f := v.fs.pre("write", v.name, off, p, 0)
+	if f == nil && v.fs.DelayAfterFault > 0 {
+		// A write that runs concurrently with one that has just failed is made
+		// slow: if the library stops waiting for it, it lands late - on top of
+		// whatever a retry has written by then.
+		v.fs.mu.Lock()
+		recent := !v.fs.lastFault.IsZero() && time.Since(v.fs.lastFault) < v.fs.DelayAfterFault
+		v.fs.mu.Unlock()
+		if recent && !v.fs.inHarness() {
+			time.Sleep(v.fs.DelayAfterFault)
+		}
+	}
 	if f != nil {
 		if f.Short >= 0 {
 			n := f.Short
